@@ -229,6 +229,7 @@ def oneshot_hits(tree):
             rebinds = [x for x in ast.walk(fn) if isinstance(x, ast.Assign) and x is not a and any(isinstance(t, ast.Name) and t.id == name for t in x.targets)]
             if rebinds:
                 continue
+            found_ = False
             for loop in [l for l in ast.walk(fn) if isinstance(l, (ast.For, ast.While)) and enclosing_function(l) is fn]:
                 inside = any(x is a for x in ast.walk(loop))
                 if inside or loop.lineno < a.lineno:
@@ -237,6 +238,17 @@ def oneshot_hits(tree):
                 uses = [y for y in body_nodes if isinstance(y, ast.Name) and y.id == name and isinstance(y.ctx, ast.Load)]
                 if uses:
                     hits.append((fn, name, a, loop, uses[0]))
+                    found_ = True
+                    break
+            if found_:
+                continue
+            # ... or in the element / filter of a comprehension (evaluated once per item: `x in it` draws from `it` every time)
+            for comp in [c for c in ast.walk(fn) if isinstance(c, (ast.ListComp, ast.SetComp, ast.DictComp, ast.GeneratorExp)) and c.lineno >= a.lineno and not any(x is a for x in ast.walk(c))]:
+                parts = list(comp.generators[0].ifs) + [g_ for gen in comp.generators[1:] for g_ in [gen.iter] + list(gen.ifs)] + \
+                    ([comp.key, comp.value] if isinstance(comp, ast.DictComp) else [comp.elt])
+                uses = [y for p_ in parts for y in ast.walk(p_) if isinstance(y, ast.Name) and y.id == name and isinstance(y.ctx, ast.Load)]
+                if uses:
+                    hits.append((fn, name, a, comp, uses[0]))
                     break
     # an iterator bound at module level and read inside a function is drawn from by every call: the first call uses it up
     if isinstance(tree, ast.Module):
